@@ -40,6 +40,9 @@ Model/EqHash.vos Model/EqHash.vok Model/EqHash.required_vos: Model/EqHash.v Base
 Model/PFM.vo Model/PFM.glob Model/PFM.v.beautified Model/PFM.required_vo: Model/PFM.v Base/Result.vo Base/Str.vo Base/AstOp.vo Model/Ast.vo Model/FM.vo
 Model/PFM.vio: Model/PFM.v Base/Result.vio Base/Str.vio Base/AstOp.vio Model/Ast.vio Model/FM.vio
 Model/PFM.vos Model/PFM.vok Model/PFM.required_vos: Model/PFM.v Base/Result.vos Base/Str.vos Base/AstOp.vos Model/Ast.vos Model/FM.vos
+Model/Heap.vo Model/Heap.glob Model/Heap.v.beautified Model/Heap.required_vo: Model/Heap.v 
+Model/Heap.vio: Model/Heap.v 
+Model/Heap.vos Model/Heap.vok Model/Heap.required_vos: Model/Heap.v 
 Gen/Tables_json.vo Gen/Tables_json.glob Gen/Tables_json.v.beautified Gen/Tables_json.required_vo: Gen/Tables_json.v Base/AstOp.vo
 Gen/Tables_json.vio: Gen/Tables_json.v Base/AstOp.vio
 Gen/Tables_json.vos Gen/Tables_json.vok Gen/Tables_json.required_vos: Gen/Tables_json.v Base/AstOp.vos
@@ -85,12 +88,12 @@ Model/Metrics.vos Model/Metrics.vok Model/Metrics.required_vos: Model/Metrics.v 
 Model/GenRandom.vo Model/GenRandom.glob Model/GenRandom.v.beautified Model/GenRandom.required_vo: Model/GenRandom.v Base/Result.vo Base/Str.vo Base/PyFloat.vo Base/AstOp.vo Model/Ast.vo Model/FM.vo Model/Queries.vo
 Model/GenRandom.vio: Model/GenRandom.v Base/Result.vio Base/Str.vio Base/PyFloat.vio Base/AstOp.vio Model/Ast.vio Model/FM.vio Model/Queries.vio
 Model/GenRandom.vos Model/GenRandom.vok Model/GenRandom.required_vos: Model/GenRandom.v Base/Result.vos Base/Str.vos Base/PyFloat.vos Base/AstOp.vos Model/Ast.vos Model/FM.vos Model/Queries.vos
-Extract/Codec.vo Extract/Codec.glob Extract/Codec.v.beautified Extract/Codec.required_vo: Extract/Codec.v Base/Result.vo Base/Str.vo Base/Sexp.vo Base/AstOp.vo Model/Ast.vo Model/FM.vo Model/PFM.vo Format/Xml.vo Format/Uvl.vo Format/Afm.vo
-Extract/Codec.vio: Extract/Codec.v Base/Result.vio Base/Str.vio Base/Sexp.vio Base/AstOp.vio Model/Ast.vio Model/FM.vio Model/PFM.vio Format/Xml.vio Format/Uvl.vio Format/Afm.vio
-Extract/Codec.vos Extract/Codec.vok Extract/Codec.required_vos: Extract/Codec.v Base/Result.vos Base/Str.vos Base/Sexp.vos Base/AstOp.vos Model/Ast.vos Model/FM.vos Model/PFM.vos Format/Xml.vos Format/Uvl.vos Format/Afm.vos
-Extract/Driver.vo Extract/Driver.glob Extract/Driver.v.beautified Extract/Driver.required_vo: Extract/Driver.v Base/Result.vo Base/Str.vo Base/Sexp.vo Base/AstOp.vo Model/Ast.vo Model/FM.vo Model/Ctc.vo Model/Queries.vo Model/Sem.vo Model/Ops.vo Model/EqHash.vo Model/PFM.vo Format/Json.vo Format/Glencoe.vo Format/Xml.vo Format/Uvl.vo Format/Afm.vo Format/Export.vo Model/Metrics.vo Model/GenRandom.vo Extract/Codec.vo
-Extract/Driver.vio: Extract/Driver.v Base/Result.vio Base/Str.vio Base/Sexp.vio Base/AstOp.vio Model/Ast.vio Model/FM.vio Model/Ctc.vio Model/Queries.vio Model/Sem.vio Model/Ops.vio Model/EqHash.vio Model/PFM.vio Format/Json.vio Format/Glencoe.vio Format/Xml.vio Format/Uvl.vio Format/Afm.vio Format/Export.vio Model/Metrics.vio Model/GenRandom.vio Extract/Codec.vio
-Extract/Driver.vos Extract/Driver.vok Extract/Driver.required_vos: Extract/Driver.v Base/Result.vos Base/Str.vos Base/Sexp.vos Base/AstOp.vos Model/Ast.vos Model/FM.vos Model/Ctc.vos Model/Queries.vos Model/Sem.vos Model/Ops.vos Model/EqHash.vos Model/PFM.vos Format/Json.vos Format/Glencoe.vos Format/Xml.vos Format/Uvl.vos Format/Afm.vos Format/Export.vos Model/Metrics.vos Model/GenRandom.vos Extract/Codec.vos
+Extract/Codec.vo Extract/Codec.glob Extract/Codec.v.beautified Extract/Codec.required_vo: Extract/Codec.v Base/Result.vo Base/Str.vo Base/Sexp.vo Base/AstOp.vo Model/Ast.vo Model/FM.vo Model/PFM.vo Model/Heap.vo Format/Xml.vo Format/Uvl.vo Format/Afm.vo
+Extract/Codec.vio: Extract/Codec.v Base/Result.vio Base/Str.vio Base/Sexp.vio Base/AstOp.vio Model/Ast.vio Model/FM.vio Model/PFM.vio Model/Heap.vio Format/Xml.vio Format/Uvl.vio Format/Afm.vio
+Extract/Codec.vos Extract/Codec.vok Extract/Codec.required_vos: Extract/Codec.v Base/Result.vos Base/Str.vos Base/Sexp.vos Base/AstOp.vos Model/Ast.vos Model/FM.vos Model/PFM.vos Model/Heap.vos Format/Xml.vos Format/Uvl.vos Format/Afm.vos
+Extract/Driver.vo Extract/Driver.glob Extract/Driver.v.beautified Extract/Driver.required_vo: Extract/Driver.v Base/Result.vo Base/Str.vo Base/Sexp.vo Base/AstOp.vo Model/Ast.vo Model/FM.vo Model/Ctc.vo Model/Queries.vo Model/Sem.vo Model/Ops.vo Model/EqHash.vo Model/PFM.vo Model/Heap.vo Format/Json.vo Format/Glencoe.vo Format/Xml.vo Format/Uvl.vo Format/Afm.vo Format/Export.vo Model/Metrics.vo Model/GenRandom.vo Extract/Codec.vo
+Extract/Driver.vio: Extract/Driver.v Base/Result.vio Base/Str.vio Base/Sexp.vio Base/AstOp.vio Model/Ast.vio Model/FM.vio Model/Ctc.vio Model/Queries.vio Model/Sem.vio Model/Ops.vio Model/EqHash.vio Model/PFM.vio Model/Heap.vio Format/Json.vio Format/Glencoe.vio Format/Xml.vio Format/Uvl.vio Format/Afm.vio Format/Export.vio Model/Metrics.vio Model/GenRandom.vio Extract/Codec.vio
+Extract/Driver.vos Extract/Driver.vok Extract/Driver.required_vos: Extract/Driver.v Base/Result.vos Base/Str.vos Base/Sexp.vos Base/AstOp.vos Model/Ast.vos Model/FM.vos Model/Ctc.vos Model/Queries.vos Model/Sem.vos Model/Ops.vos Model/EqHash.vos Model/PFM.vos Model/Heap.vos Format/Json.vos Format/Glencoe.vos Format/Xml.vos Format/Uvl.vos Format/Afm.vos Format/Export.vos Model/Metrics.vos Model/GenRandom.vos Extract/Codec.vos
 Extract/Extract.vo Extract/Extract.glob Extract/Extract.v.beautified Extract/Extract.required_vo: Extract/Extract.v Base/Sexp.vo Extract/Driver.vo
 Extract/Extract.vio: Extract/Extract.v Base/Sexp.vio Extract/Driver.vio
 Extract/Extract.vos Extract/Extract.vok Extract/Extract.required_vos: Extract/Extract.v Base/Sexp.vos Extract/Driver.vos
@@ -100,9 +103,12 @@ Proofs/FMFacts.vos Proofs/FMFacts.vok Proofs/FMFacts.required_vos: Proofs/FMFact
 Proofs/QueriesFacts.vo Proofs/QueriesFacts.glob Proofs/QueriesFacts.v.beautified Proofs/QueriesFacts.required_vo: Proofs/QueriesFacts.v Base/Result.vo Base/Str.vo Model/Ast.vo Model/FM.vo Model/Ctc.vo Model/Queries.vo Proofs/FMFacts.vo
 Proofs/QueriesFacts.vio: Proofs/QueriesFacts.v Base/Result.vio Base/Str.vio Model/Ast.vio Model/FM.vio Model/Ctc.vio Model/Queries.vio Proofs/FMFacts.vio
 Proofs/QueriesFacts.vos Proofs/QueriesFacts.vok Proofs/QueriesFacts.required_vos: Proofs/QueriesFacts.v Base/Result.vos Base/Str.vos Model/Ast.vos Model/FM.vos Model/Ctc.vos Model/Queries.vos Proofs/FMFacts.vos
-Props/C03.vo Props/C03.glob Props/C03.v.beautified Props/C03.required_vo: Props/C03.v Model/FM.vo Model/Queries.vo Proofs/FMFacts.vo Proofs/QueriesFacts.vo
-Props/C03.vio: Props/C03.v Model/FM.vio Model/Queries.vio Proofs/FMFacts.vio Proofs/QueriesFacts.vio
-Props/C03.vos Props/C03.vok Props/C03.required_vos: Props/C03.v Model/FM.vos Model/Queries.vos Proofs/FMFacts.vos Proofs/QueriesFacts.vos
+Proofs/HeapFacts.vo Proofs/HeapFacts.glob Proofs/HeapFacts.v.beautified Proofs/HeapFacts.required_vo: Proofs/HeapFacts.v Model/Heap.vo
+Proofs/HeapFacts.vio: Proofs/HeapFacts.v Model/Heap.vio
+Proofs/HeapFacts.vos Proofs/HeapFacts.vok Proofs/HeapFacts.required_vos: Proofs/HeapFacts.v Model/Heap.vos
+Props/C03.vo Props/C03.glob Props/C03.v.beautified Props/C03.required_vo: Props/C03.v Model/FM.vo Model/Queries.vo Model/Heap.vo Proofs/FMFacts.vo Proofs/QueriesFacts.vo Proofs/HeapFacts.vo
+Props/C03.vio: Props/C03.v Model/FM.vio Model/Queries.vio Model/Heap.vio Proofs/FMFacts.vio Proofs/QueriesFacts.vio Proofs/HeapFacts.vio
+Props/C03.vos Props/C03.vok Props/C03.required_vos: Props/C03.v Model/FM.vos Model/Queries.vos Model/Heap.vos Proofs/FMFacts.vos Proofs/QueriesFacts.vos Proofs/HeapFacts.vos
 Proofs/C13Facts.vo Proofs/C13Facts.glob Proofs/C13Facts.v.beautified Proofs/C13Facts.required_vo: Proofs/C13Facts.v Base/Result.vo Base/Str.vo Model/Ast.vo Model/FM.vo Model/Ctc.vo Model/Queries.vo Model/Sem.vo Model/Ops.vo
 Proofs/C13Facts.vio: Proofs/C13Facts.v Base/Result.vio Base/Str.vio Model/Ast.vio Model/FM.vio Model/Ctc.vio Model/Queries.vio Model/Sem.vio Model/Ops.vio
 Proofs/C13Facts.vos Proofs/C13Facts.vok Proofs/C13Facts.required_vos: Proofs/C13Facts.v Base/Result.vos Base/Str.vos Model/Ast.vos Model/FM.vos Model/Ctc.vos Model/Queries.vos Model/Sem.vos Model/Ops.vos
@@ -139,12 +145,12 @@ Proofs/C20Facts.vos Proofs/C20Facts.vok Proofs/C20Facts.required_vos: Proofs/C20
 Props/C20.vo Props/C20.glob Props/C20.v.beautified Props/C20.required_vo: Props/C20.v Base/Str.vo Model/FM.vo Model/Queries.vo Model/EqHash.vo Proofs/C20Facts.vo
 Props/C20.vio: Props/C20.v Base/Str.vio Model/FM.vio Model/Queries.vio Model/EqHash.vio Proofs/C20Facts.vio
 Props/C20.vos Props/C20.vok Props/C20.required_vos: Props/C20.v Base/Str.vos Model/FM.vos Model/Queries.vos Model/EqHash.vos Proofs/C20Facts.vos
-Proofs/JsonFacts.vo Proofs/JsonFacts.glob Proofs/JsonFacts.v.beautified Proofs/JsonFacts.required_vo: Proofs/JsonFacts.v Base/Result.vo Base/Str.vo Base/AstOp.vo Gen/Tables_core.vo Model/Ast.vo Model/FM.vo Model/PFM.vo Model/Queries.vo Gen/Tables_json.vo Format/Json.vo
-Proofs/JsonFacts.vio: Proofs/JsonFacts.v Base/Result.vio Base/Str.vio Base/AstOp.vio Gen/Tables_core.vio Model/Ast.vio Model/FM.vio Model/PFM.vio Model/Queries.vio Gen/Tables_json.vio Format/Json.vio
-Proofs/JsonFacts.vos Proofs/JsonFacts.vok Proofs/JsonFacts.required_vos: Proofs/JsonFacts.v Base/Result.vos Base/Str.vos Base/AstOp.vos Gen/Tables_core.vos Model/Ast.vos Model/FM.vos Model/PFM.vos Model/Queries.vos Gen/Tables_json.vos Format/Json.vos
-Props/C05.vo Props/C05.glob Props/C05.v.beautified Props/C05.required_vo: Props/C05.v Base/Result.vo Model/FM.vo Model/PFM.vo Format/Json.vo Proofs/JsonFacts.vo Proofs/C09Facts.vo Proofs/JsonVariant.vo Proofs/JsonExtra.vo
-Props/C05.vio: Props/C05.v Base/Result.vio Model/FM.vio Model/PFM.vio Format/Json.vio Proofs/JsonFacts.vio Proofs/C09Facts.vio Proofs/JsonVariant.vio Proofs/JsonExtra.vio
-Props/C05.vos Props/C05.vok Props/C05.required_vos: Props/C05.v Base/Result.vos Model/FM.vos Model/PFM.vos Format/Json.vos Proofs/JsonFacts.vos Proofs/C09Facts.vos Proofs/JsonVariant.vos Proofs/JsonExtra.vos
+Proofs/JsonFacts.vo Proofs/JsonFacts.glob Proofs/JsonFacts.v.beautified Proofs/JsonFacts.required_vo: Proofs/JsonFacts.v Base/Result.vo Base/Str.vo Base/AstOp.vo Gen/Tables_core.vo Model/Ast.vo Model/FM.vo Model/PFM.vo Model/Queries.vo Gen/Tables_json.vo Format/Json.vo Proofs/C16Facts.vo
+Proofs/JsonFacts.vio: Proofs/JsonFacts.v Base/Result.vio Base/Str.vio Base/AstOp.vio Gen/Tables_core.vio Model/Ast.vio Model/FM.vio Model/PFM.vio Model/Queries.vio Gen/Tables_json.vio Format/Json.vio Proofs/C16Facts.vio
+Proofs/JsonFacts.vos Proofs/JsonFacts.vok Proofs/JsonFacts.required_vos: Proofs/JsonFacts.v Base/Result.vos Base/Str.vos Base/AstOp.vos Gen/Tables_core.vos Model/Ast.vos Model/FM.vos Model/PFM.vos Model/Queries.vos Gen/Tables_json.vos Format/Json.vos Proofs/C16Facts.vos
+Props/C05.vo Props/C05.glob Props/C05.v.beautified Props/C05.required_vo: Props/C05.v Base/Result.vo Model/FM.vo Model/PFM.vo Format/Json.vo Proofs/C16Facts.vo Proofs/JsonFacts.vo Proofs/C09Facts.vo Proofs/JsonVariant.vo Proofs/JsonExtra.vo
+Props/C05.vio: Props/C05.v Base/Result.vio Model/FM.vio Model/PFM.vio Format/Json.vio Proofs/C16Facts.vio Proofs/JsonFacts.vio Proofs/C09Facts.vio Proofs/JsonVariant.vio Proofs/JsonExtra.vio
+Props/C05.vos Props/C05.vok Props/C05.required_vos: Props/C05.v Base/Result.vos Model/FM.vos Model/PFM.vos Format/Json.vos Proofs/C16Facts.vos Proofs/JsonFacts.vos Proofs/C09Facts.vos Proofs/JsonVariant.vos Proofs/JsonExtra.vos
 Proofs/FideFacts.vo Proofs/FideFacts.glob Proofs/FideFacts.v.beautified Proofs/FideFacts.required_vo: Proofs/FideFacts.v Base/Result.vo Base/Str.vo Base/AstOp.vo Model/Ast.vo Model/FM.vo Model/PFM.vo Model/Queries.vo Model/Sem.vo Gen/Tables_fide.vo Format/Xml.vo Proofs/QueriesFacts.vo
 Proofs/FideFacts.vio: Proofs/FideFacts.v Base/Result.vio Base/Str.vio Base/AstOp.vio Model/Ast.vio Model/FM.vio Model/PFM.vio Model/Queries.vio Model/Sem.vio Gen/Tables_fide.vio Format/Xml.vio Proofs/QueriesFacts.vio
 Proofs/FideFacts.vos Proofs/FideFacts.vok Proofs/FideFacts.required_vos: Proofs/FideFacts.v Base/Result.vos Base/Str.vos Base/AstOp.vos Model/Ast.vos Model/FM.vos Model/PFM.vos Model/Queries.vos Model/Sem.vos Gen/Tables_fide.vos Format/Xml.vos Proofs/QueriesFacts.vos
@@ -181,9 +187,9 @@ Props/C06.vos Props/C06.vok Props/C06.required_vos: Props/C06.v Base/Result.vos 
 Props/C12.vo Props/C12.glob Props/C12.v.beautified Props/C12.required_vo: Props/C12.v Base/Result.vo Model/FM.vo Format/Json.vo Format/Glencoe.vo Format/Xml.vo Format/Uvl.vo Format/Afm.vo Format/Export.vo
 Props/C12.vio: Props/C12.v Base/Result.vio Model/FM.vio Format/Json.vio Format/Glencoe.vio Format/Xml.vio Format/Uvl.vio Format/Afm.vio Format/Export.vio
 Props/C12.vos Props/C12.vok Props/C12.required_vos: Props/C12.v Base/Result.vos Model/FM.vos Format/Json.vos Format/Glencoe.vos Format/Xml.vos Format/Uvl.vos Format/Afm.vos Format/Export.vos
-Proofs/RefFacts.vo Proofs/RefFacts.glob Proofs/RefFacts.v.beautified Proofs/RefFacts.required_vo: Proofs/RefFacts.v Base/Result.vo Base/Str.vo Base/AstOp.vo Model/Ast.vo Model/FM.vo Model/PFM.vo Model/Queries.vo Format/Xml.vo Format/Ref.vo Proofs/QueriesFacts.vo Proofs/JsonFacts.vo Proofs/FamaFacts.vo Proofs/AfmFacts.vo
-Proofs/RefFacts.vio: Proofs/RefFacts.v Base/Result.vio Base/Str.vio Base/AstOp.vio Model/Ast.vio Model/FM.vio Model/PFM.vio Model/Queries.vio Format/Xml.vio Format/Ref.vio Proofs/QueriesFacts.vio Proofs/JsonFacts.vio Proofs/FamaFacts.vio Proofs/AfmFacts.vio
-Proofs/RefFacts.vos Proofs/RefFacts.vok Proofs/RefFacts.required_vos: Proofs/RefFacts.v Base/Result.vos Base/Str.vos Base/AstOp.vos Model/Ast.vos Model/FM.vos Model/PFM.vos Model/Queries.vos Format/Xml.vos Format/Ref.vos Proofs/QueriesFacts.vos Proofs/JsonFacts.vos Proofs/FamaFacts.vos Proofs/AfmFacts.vos
+Proofs/RefFacts.vo Proofs/RefFacts.glob Proofs/RefFacts.v.beautified Proofs/RefFacts.required_vo: Proofs/RefFacts.v Base/Result.vo Base/Str.vo Base/AstOp.vo Model/Ast.vo Model/FM.vo Model/PFM.vo Model/Queries.vo Format/Xml.vo Format/Ref.vo Proofs/QueriesFacts.vo Proofs/C16Facts.vo Proofs/JsonFacts.vo Proofs/FamaFacts.vo Proofs/AfmFacts.vo
+Proofs/RefFacts.vio: Proofs/RefFacts.v Base/Result.vio Base/Str.vio Base/AstOp.vio Model/Ast.vio Model/FM.vio Model/PFM.vio Model/Queries.vio Format/Xml.vio Format/Ref.vio Proofs/QueriesFacts.vio Proofs/C16Facts.vio Proofs/JsonFacts.vio Proofs/FamaFacts.vio Proofs/AfmFacts.vio
+Proofs/RefFacts.vos Proofs/RefFacts.vok Proofs/RefFacts.required_vos: Proofs/RefFacts.v Base/Result.vos Base/Str.vos Base/AstOp.vos Model/Ast.vos Model/FM.vos Model/PFM.vos Model/Queries.vos Format/Xml.vos Format/Ref.vos Proofs/QueriesFacts.vos Proofs/C16Facts.vos Proofs/JsonFacts.vos Proofs/FamaFacts.vos Proofs/AfmFacts.vos
 Proofs/C09Facts.vo Proofs/C09Facts.glob Proofs/C09Facts.v.beautified Proofs/C09Facts.required_vo: Proofs/C09Facts.v Base/Result.vo Base/AstOp.vo Model/Ast.vo Model/FM.vo Model/PFM.vo Format/Json.vo Format/Glencoe.vo Format/Afm.vo
 Proofs/C09Facts.vio: Proofs/C09Facts.v Base/Result.vio Base/AstOp.vio Model/Ast.vio Model/FM.vio Model/PFM.vio Format/Json.vio Format/Glencoe.vio Format/Afm.vio
 Proofs/C09Facts.vos Proofs/C09Facts.vok Proofs/C09Facts.required_vos: Proofs/C09Facts.v Base/Result.vos Base/AstOp.vos Model/Ast.vos Model/FM.vos Model/PFM.vos Format/Json.vos Format/Glencoe.vos Format/Afm.vos
@@ -196,12 +202,15 @@ Proofs/JsonVariant.vos Proofs/JsonVariant.vok Proofs/JsonVariant.required_vos: P
 Proofs/JsonExtra.vo Proofs/JsonExtra.glob Proofs/JsonExtra.v.beautified Proofs/JsonExtra.required_vo: Proofs/JsonExtra.v Base/Result.vo Base/Str.vo Base/AstOp.vo Gen/Tables_json.vo Model/Ast.vo Model/FM.vo Model/PFM.vo Format/Json.vo Proofs/JsonFacts.vo Proofs/C09Facts.vo Proofs/JsonVariant.vo
 Proofs/JsonExtra.vio: Proofs/JsonExtra.v Base/Result.vio Base/Str.vio Base/AstOp.vio Gen/Tables_json.vio Model/Ast.vio Model/FM.vio Model/PFM.vio Format/Json.vio Proofs/JsonFacts.vio Proofs/C09Facts.vio Proofs/JsonVariant.vio
 Proofs/JsonExtra.vos Proofs/JsonExtra.vok Proofs/JsonExtra.required_vos: Proofs/JsonExtra.v Base/Result.vos Base/Str.vos Base/AstOp.vos Gen/Tables_json.vos Model/Ast.vos Model/FM.vos Model/PFM.vos Format/Json.vos Proofs/JsonFacts.vos Proofs/C09Facts.vos Proofs/JsonVariant.vos
-Props/C09.vo Props/C09.glob Props/C09.v.beautified Props/C09.required_vo: Props/C09.v Base/Result.vo Base/AstOp.vo Model/Ast.vo Model/FM.vo Model/PFM.vo Format/Xml.vo Format/Ref.vo Proofs/FideFacts.vo Proofs/RefFacts.vo Proofs/C09Facts.vo Proofs/AfmVariant.vo Proofs/JsonVariant.vo Format/Json.vo Format/Glencoe.vo Format/Afm.vo
-Props/C09.vio: Props/C09.v Base/Result.vio Base/AstOp.vio Model/Ast.vio Model/FM.vio Model/PFM.vio Format/Xml.vio Format/Ref.vio Proofs/FideFacts.vio Proofs/RefFacts.vio Proofs/C09Facts.vio Proofs/AfmVariant.vio Proofs/JsonVariant.vio Format/Json.vio Format/Glencoe.vio Format/Afm.vio
-Props/C09.vos Props/C09.vok Props/C09.required_vos: Props/C09.v Base/Result.vos Base/AstOp.vos Model/Ast.vos Model/FM.vos Model/PFM.vos Format/Xml.vos Format/Ref.vos Proofs/FideFacts.vos Proofs/RefFacts.vos Proofs/C09Facts.vos Proofs/AfmVariant.vos Proofs/JsonVariant.vos Format/Json.vos Format/Glencoe.vos Format/Afm.vos
+Props/C09.vo Props/C09.glob Props/C09.v.beautified Props/C09.required_vo: Props/C09.v Base/Result.vo Base/AstOp.vo Model/Ast.vo Model/FM.vo Model/PFM.vo Format/Xml.vo Format/Ref.vo Proofs/C16Facts.vo Proofs/FideFacts.vo Proofs/RefFacts.vo Proofs/C09Facts.vo Proofs/AfmVariant.vo Proofs/JsonVariant.vo Format/Json.vo Format/Glencoe.vo Format/Afm.vo
+Props/C09.vio: Props/C09.v Base/Result.vio Base/AstOp.vio Model/Ast.vio Model/FM.vio Model/PFM.vio Format/Xml.vio Format/Ref.vio Proofs/C16Facts.vio Proofs/FideFacts.vio Proofs/RefFacts.vio Proofs/C09Facts.vio Proofs/AfmVariant.vio Proofs/JsonVariant.vio Format/Json.vio Format/Glencoe.vio Format/Afm.vio
+Props/C09.vos Props/C09.vok Props/C09.required_vos: Props/C09.v Base/Result.vos Base/AstOp.vos Model/Ast.vos Model/FM.vos Model/PFM.vos Format/Xml.vos Format/Ref.vos Proofs/C16Facts.vos Proofs/FideFacts.vos Proofs/RefFacts.vos Proofs/C09Facts.vos Proofs/AfmVariant.vos Proofs/JsonVariant.vos Format/Json.vos Format/Glencoe.vos Format/Afm.vos
 Proofs/UvlFacts.vo Proofs/UvlFacts.glob Proofs/UvlFacts.v.beautified Proofs/UvlFacts.required_vo: Proofs/UvlFacts.v Base/Result.vo Base/Str.vo Base/AstOp.vo Gen/Tables_core.vo Model/Ast.vo Model/FM.vo Model/PFM.vo Model/Queries.vo Model/Sem.vo Format/Json.vo Format/Glencoe.vo Format/Xml.vo Gen/Tables_uvl.vo Format/Uvl.vo Proofs/JsonFacts.vo
 Proofs/UvlFacts.vio: Proofs/UvlFacts.v Base/Result.vio Base/Str.vio Base/AstOp.vio Gen/Tables_core.vio Model/Ast.vio Model/FM.vio Model/PFM.vio Model/Queries.vio Model/Sem.vio Format/Json.vio Format/Glencoe.vio Format/Xml.vio Gen/Tables_uvl.vio Format/Uvl.vio Proofs/JsonFacts.vio
 Proofs/UvlFacts.vos Proofs/UvlFacts.vok Proofs/UvlFacts.required_vos: Proofs/UvlFacts.v Base/Result.vos Base/Str.vos Base/AstOp.vos Gen/Tables_core.vos Model/Ast.vos Model/FM.vos Model/PFM.vos Model/Queries.vos Model/Sem.vos Format/Json.vos Format/Glencoe.vos Format/Xml.vos Gen/Tables_uvl.vos Format/Uvl.vos Proofs/JsonFacts.vos
+Proofs/NonEmptyFacts.vo Proofs/NonEmptyFacts.glob Proofs/NonEmptyFacts.v.beautified Proofs/NonEmptyFacts.required_vo: Proofs/NonEmptyFacts.v Base/Result.vo Base/Str.vo Base/AstOp.vo Model/Ast.vo Model/FM.vo Model/PFM.vo Model/Queries.vo Format/Uvl.vo Format/Afm.vo Proofs/JsonFacts.vo Proofs/UvlFacts.vo Proofs/AfmFacts.vo
+Proofs/NonEmptyFacts.vio: Proofs/NonEmptyFacts.v Base/Result.vio Base/Str.vio Base/AstOp.vio Model/Ast.vio Model/FM.vio Model/PFM.vio Model/Queries.vio Format/Uvl.vio Format/Afm.vio Proofs/JsonFacts.vio Proofs/UvlFacts.vio Proofs/AfmFacts.vio
+Proofs/NonEmptyFacts.vos Proofs/NonEmptyFacts.vok Proofs/NonEmptyFacts.required_vos: Proofs/NonEmptyFacts.v Base/Result.vos Base/Str.vos Base/AstOp.vos Model/Ast.vos Model/FM.vos Model/PFM.vos Model/Queries.vos Format/Uvl.vos Format/Afm.vos Proofs/JsonFacts.vos Proofs/UvlFacts.vos Proofs/AfmFacts.vos
 Proofs/UvlVariant.vo Proofs/UvlVariant.glob Proofs/UvlVariant.v.beautified Proofs/UvlVariant.required_vo: Proofs/UvlVariant.v Base/Result.vo Base/Str.vo Base/AstOp.vo Gen/Tables_core.vo Model/Ast.vo Model/FM.vo Model/PFM.vo Model/Queries.vo Format/Json.vo Format/Glencoe.vo Format/Xml.vo Gen/Tables_uvl.vo Format/Uvl.vo Proofs/JsonFacts.vo Proofs/UvlFacts.vo
 Proofs/UvlVariant.vio: Proofs/UvlVariant.v Base/Result.vio Base/Str.vio Base/AstOp.vio Gen/Tables_core.vio Model/Ast.vio Model/FM.vio Model/PFM.vio Model/Queries.vio Format/Json.vio Format/Glencoe.vio Format/Xml.vio Gen/Tables_uvl.vio Format/Uvl.vio Proofs/JsonFacts.vio Proofs/UvlFacts.vio
 Proofs/UvlVariant.vos Proofs/UvlVariant.vok Proofs/UvlVariant.required_vos: Proofs/UvlVariant.v Base/Result.vos Base/Str.vos Base/AstOp.vos Gen/Tables_core.vos Model/Ast.vos Model/FM.vos Model/PFM.vos Model/Queries.vos Format/Json.vos Format/Glencoe.vos Format/Xml.vos Gen/Tables_uvl.vos Format/Uvl.vos Proofs/JsonFacts.vos Proofs/UvlFacts.vos
@@ -211,9 +220,9 @@ Props/C01.vos Props/C01.vok Props/C01.required_vos: Props/C01.v Base/Result.vos 
 Props/C04.vo Props/C04.glob Props/C04.v.beautified Props/C04.required_vo: Props/C04.v Base/Result.vo Base/Str.vo Model/Ast.vo Model/FM.vo Model/PFM.vo Format/Uvl.vo Proofs/UvlFacts.vo Proofs/UvlVariant.vo
 Props/C04.vio: Props/C04.v Base/Result.vio Base/Str.vio Model/Ast.vio Model/FM.vio Model/PFM.vio Format/Uvl.vio Proofs/UvlFacts.vio Proofs/UvlVariant.vio
 Props/C04.vos Props/C04.vok Props/C04.required_vos: Props/C04.v Base/Result.vos Base/Str.vos Model/Ast.vos Model/FM.vos Model/PFM.vos Format/Uvl.vos Proofs/UvlFacts.vos Proofs/UvlVariant.vos
-Props/C02.vo Props/C02.glob Props/C02.v.beautified Props/C02.required_vo: Props/C02.v Base/Result.vo Model/Ast.vo Model/FM.vo Model/PFM.vo Format/Json.vo Format/Glencoe.vo Format/Xml.vo Format/Uvl.vo Format/Afm.vo Proofs/JsonFacts.vo Proofs/GlencoeFacts.vo Proofs/FideFacts.vo Proofs/FamaFacts.vo Proofs/UvlFacts.vo Proofs/AfmFacts.vo
-Props/C02.vio: Props/C02.v Base/Result.vio Model/Ast.vio Model/FM.vio Model/PFM.vio Format/Json.vio Format/Glencoe.vio Format/Xml.vio Format/Uvl.vio Format/Afm.vio Proofs/JsonFacts.vio Proofs/GlencoeFacts.vio Proofs/FideFacts.vio Proofs/FamaFacts.vio Proofs/UvlFacts.vio Proofs/AfmFacts.vio
-Props/C02.vos Props/C02.vok Props/C02.required_vos: Props/C02.v Base/Result.vos Model/Ast.vos Model/FM.vos Model/PFM.vos Format/Json.vos Format/Glencoe.vos Format/Xml.vos Format/Uvl.vos Format/Afm.vos Proofs/JsonFacts.vos Proofs/GlencoeFacts.vos Proofs/FideFacts.vos Proofs/FamaFacts.vos Proofs/UvlFacts.vos Proofs/AfmFacts.vos
+Props/C02.vo Props/C02.glob Props/C02.v.beautified Props/C02.required_vo: Props/C02.v Base/Result.vo Model/Ast.vo Model/FM.vo Model/PFM.vo Format/Json.vo Format/Glencoe.vo Format/Xml.vo Format/Uvl.vo Format/Afm.vo Proofs/JsonFacts.vo Proofs/GlencoeFacts.vo Proofs/FideFacts.vo Proofs/FamaFacts.vo Proofs/UvlFacts.vo Proofs/AfmFacts.vo Proofs/NonEmptyFacts.vo
+Props/C02.vio: Props/C02.v Base/Result.vio Model/Ast.vio Model/FM.vio Model/PFM.vio Format/Json.vio Format/Glencoe.vio Format/Xml.vio Format/Uvl.vio Format/Afm.vio Proofs/JsonFacts.vio Proofs/GlencoeFacts.vio Proofs/FideFacts.vio Proofs/FamaFacts.vio Proofs/UvlFacts.vio Proofs/AfmFacts.vio Proofs/NonEmptyFacts.vio
+Props/C02.vos Props/C02.vok Props/C02.required_vos: Props/C02.v Base/Result.vos Model/Ast.vos Model/FM.vos Model/PFM.vos Format/Json.vos Format/Glencoe.vos Format/Xml.vos Format/Uvl.vos Format/Afm.vos Proofs/JsonFacts.vos Proofs/GlencoeFacts.vos Proofs/FideFacts.vos Proofs/FamaFacts.vos Proofs/UvlFacts.vos Proofs/AfmFacts.vos Proofs/NonEmptyFacts.vos
 Proofs/C10Facts.vo Proofs/C10Facts.glob Proofs/C10Facts.v.beautified Proofs/C10Facts.required_vo: Proofs/C10Facts.v Base/Result.vo Base/Str.vo Base/AstOp.vo Gen/Tables_core.vo Model/Ast.vo Model/FM.vo Model/Ctc.vo Model/Queries.vo Model/Sem.vo Format/Export.vo Proofs/FMFacts.vo Proofs/QueriesFacts.vo Proofs/C14Facts.vo Proofs/C18Facts.vo
 Proofs/C10Facts.vio: Proofs/C10Facts.v Base/Result.vio Base/Str.vio Base/AstOp.vio Gen/Tables_core.vio Model/Ast.vio Model/FM.vio Model/Ctc.vio Model/Queries.vio Model/Sem.vio Format/Export.vio Proofs/FMFacts.vio Proofs/QueriesFacts.vio Proofs/C14Facts.vio Proofs/C18Facts.vio
 Proofs/C10Facts.vos Proofs/C10Facts.vok Proofs/C10Facts.required_vos: Proofs/C10Facts.v Base/Result.vos Base/Str.vos Base/AstOp.vos Gen/Tables_core.vos Model/Ast.vos Model/FM.vos Model/Ctc.vos Model/Queries.vos Model/Sem.vos Format/Export.vos Proofs/FMFacts.vos Proofs/QueriesFacts.vos Proofs/C14Facts.vos Proofs/C18Facts.vos
